@@ -1,0 +1,15 @@
+//go:build !verif
+
+package ship
+
+import "github.com/enbility/ship-go/api"
+
+// Verification hooks, without the build tag "verif" they do nothing
+
+func verifWrap(p api.ShipConnectionInfoProviderInterface, w api.WebsocketDataWriterInterface, _ shipRole, _ string) (api.ShipConnectionInfoProviderInterface, api.WebsocketDataWriterInterface) {
+	return p, w
+}
+
+func verifEntry(*ShipConnection, string) func() { return verifNoop }
+
+func verifNoop() {}
